@@ -124,8 +124,22 @@ package keeper
 //@ loop 0 invariant [done_means_nothing_left] done ==> tokens == 0
 //@ loop 0 invariant [not_done_means_all_seen_consumed] !done ==> len(kept) == 0
 
-// ReporterStake is not verified yet (C10 lists it as not decided); callers rely on this frame only.
+// ---- reporting power (C10) ----
+// rrec(q, r, h): the stake record written for reporter r reporting query q at height h.
+//@ define rrec(q, r, h) = reporter.Report[pair(q, pair(r, h))]
+
 //@ func (k Keeper).ReporterStake(ctx, repAddr, queryId) (stake, err)
-//@ trusted
+//@ uses sum_congruence
 //@ modifies reporter.Report
-//@ ensures [stake_is_a_token_amount_below_2_64_whole_tokens] err == nil ==> 0 <= stake && stake < 18446744073709551616000000
+//@ ensures [jailed_reporter_cannot_report] old(has(reporter.Reporters, bytes(repAddr))) && old(reporter.Reporters[bytes(repAddr)].Jailed) ==> err != nil && nothing_written()
+//@ ensures [unknown_reporter_rejected] !old(has(reporter.Reporters, bytes(repAddr))) ==> err != nil && nothing_written()
+//@ ensures [record_stored_for_this_report] err == nil ==> has(reporter.Report, pair(bytes(queryId), pair(bytes(repAddr), blockheight(ctx))))
+//@ ensures [record_total_is_the_stake_counted] err == nil ==> rrec(bytes(queryId), bytes(repAddr), blockheight(ctx)).Total == stake
+//@ ensures [backers_listed_sum_to_the_stake_counted] err == nil ==> tsum(rrec(bytes(queryId), bytes(repAddr), blockheight(ctx)).TokenOrigins, len(rrec(bytes(queryId), bytes(repAddr), blockheight(ctx)).TokenOrigins)) == stake
+//@ ensures [other_records_untouched] forall q bytes :: forall r bytes :: forall h int :: q != bytes(queryId) || r != bytes(repAddr) || h != blockheight(ctx) ==> (has(reporter.Report, pair(q, pair(r, h))) <==> old(has(reporter.Report, pair(q, pair(r, h))))) && rrec(q, r, h) == old(rrec(q, r, h))
+//@ loop 0 "for ; iter.Valid(); iter.Next()"
+//@ loop 0 invariant [backers_so_far_sum_to_the_total] tsum(delegates, len(delegates)) == totalTokens && forall j in [0, len(delegates)) :: allocated(delegates[j])
+//@ loop 0 invariant [every_delegation_walk_ran_to_its_end] !iterstopped(0) && !iterstopped(1)
+//@ loop 0 invariant [nothing_written_yet] nothing_written()
+//@ iter 0 invariant [backers_so_far_sum_to_the_total] tsum(delegates, len(delegates)) == totalTokens && iterError == nil && forall j in [0, len(delegates)) :: allocated(delegates[j])
+//@ iter 1 invariant [backers_so_far_sum_to_the_total] tsum(delegates, len(delegates)) == totalTokens && iterError == nil && forall j in [0, len(delegates)) :: allocated(delegates[j])
